@@ -82,3 +82,28 @@ Proof.
   - apply (planted_pieces_coincide E x T k Hrec).
   - apply (planted_zero_deviation E x T k Hrec).
 Qed.
+
+(** After the writers' shift by the level mean at the reference level
+    ([store_with_reference], rise.py / recession.py last step) the constant k is
+    gone: the view shows the planted curve measured from the reference level. *)
+Theorem planted_view_from_reference offsets crossings grid step ref (T : Z -> Q) (k : Q) :
+  NoDup grid ->
+  let E := aligned_entries offsets crossings in
+  let x := offset_of offsets in
+  (forall c, In c E -> x (e_series c) + e_val c == T (e_head c) + k) ->
+  In ref (view_levels offsets crossings grid) ->
+  forall h, In h (view_levels offsets crossings grid) ->
+    exists v, In (inject_Z h * step, v)
+                 (view_average (store_with_reference offsets crossings ref) crossings grid step) /\
+              v == T h - T ref.
+Proof.
+  intros HG E x Hrec Href h Hh.
+  destruct (view_after_reference offsets crossings grid step ref HG) as (_ & Hall).
+  destruct (Hall h Hh) as (v & Hin & Hv). fold E x in Hv.
+  exists v. split; [exact Hin|]. rewrite Hv.
+  assert (Hex : forall l, In l (view_levels offsets crossings grid) -> exists c, In c (at_head E l)).
+  { intros l Hl. apply view_levels_spec in Hl. destruct Hl as (_ & Hl).
+    apply crossed_by_aligned in Hl. exact Hl. }
+  rewrite (planted_head_mean E x T k Hrec h (Hex h Hh)).
+  rewrite (planted_head_mean E x T k Hrec ref (Hex ref Href)). ring.
+Qed.
